@@ -7,6 +7,8 @@ pub fn run(out: &mut Out, tier: &str, rng: &mut Rng) {
     let thorough = tier == "thorough";
     let inst = sess::set_instance();
     out.rule = "streams of 1..4 well-formed frames (five accepted command/session types with valid, ill-sized and undecodable payloads; unknown type codes; payload lengths 1,2,10,20,1023,1024,random; header look-alike payloads) fed to the real session (scripted transport, hand-polled): whole, byte by byte, every single cut offset, random multi-cuts; a published signal inserted at every cut (frame boundaries are then also cuts). Non-trivial = stream with >= 2 frames or a cut strictly inside a frame".into();
+    // a client that takes its time inside and between frames (seconds to an hour of the runtime's clock)
+    crate::c05::slow(out, &inst, false);
     // corpus: the two desynchronisations found on the pinned tree
     {
         // (1) unknown-type frame followed by stop-all and a horn command
